@@ -124,4 +124,20 @@ META = {
         "components": {"real": ["server.Server.Serve, trackConn, connection.handle, Shutdown, Addr (server/server.go)", "server.ModbusTCPAssembler"],
                        "stub": ["net.Listener / net.Conn", "ModbusHandler (reference device with simulated work / panics)", "the four callbacks (recording, parking)", "clients", "clock", "goroutine choice incl. lock hand-off order"]},
     },
+    "C14": {
+        "level": "exploration",
+        "budget": {"quick": 30, "thorough": 540},
+        "race_budget": {"quick": 12, "thorough": 120},
+        "rule": ("each run = one real Client (TCP or RTU framing) or SerialClient shared by 2-6 caller tasks x 1-5 calls (FC6 writes of globally unique values, FC3 reads of a "
+                 "4-register file), optional tasks calling Close and Connect at tape-chosen instants, a device task per connection that decodes requests in arrival order and answers "
+                 "after a tape-chosen think time; every mutex acquisition of the client is a scheduling point, so the tape decides who gets the client next and where Close/Connect land; "
+                 "(client kind x caller count x close/connect) stratified. Checked: no request is written while another caller's exchange is in progress; every byte sequence written is "
+                 "one caller's request; each successful caller got the reply to its own request (tid/unit, echo); the history stamped with scheduler step numbers is linearizable w.r.t. "
+                 "a register file (porcupine, failed writes may or may not have happened, failed reads dropped, Unknown never reported). Race mode: the same scenarios with free-running "
+                 "goroutines under -race (counted separately). Every run is non-trivial (>= 2 callers); distinct = distinct schedule fingerprint."),
+        "assumptions": ["replies are delivered unfragmented (fragmentation is C07's quantifier and its known findings would blur the verdict)",
+                        "calls overlapping Close/Connect may fail; they must not succeed with someone else's reply",
+                        "race mode is observation of executions whose interleaving the simulator does not decide; its reports are not replayable byte-exactly", "sampling, not proof"],
+        "components": {"real": REAL_CLIENT, "stub": STUB_CLIENT + ["lock hand-off order (tagged simBeforeLock hook + scheduler)"]},
+    },
 }
